@@ -122,11 +122,18 @@ def ensure_build(log=None):
     try:
         dst = os.path.join(BUILD_ROOT, key)
         if os.path.exists(os.path.join(dst, ".done")):
+            os.utime(os.path.join(dst, ".done"))
             return dst
-        for d in os.listdir(BUILD_ROOT):          # keep disk use bounded
-            p = os.path.join(BUILD_ROOT, d)
-            if os.path.isdir(p):
-                shutil.rmtree(p, ignore_errors=True)
+        # keep disk use bounded (about 60 MB each): the three most recently
+        # used builds stay, so that a check running on another tree
+        # (VERIF_REPO) does not lose its build under its feet
+        old = sorted((os.path.getmtime(os.path.join(BUILD_ROOT, d, ".done"))
+                      if os.path.exists(os.path.join(BUILD_ROOT, d, ".done"))
+                      else 0.0, d)
+                     for d in os.listdir(BUILD_ROOT)
+                     if os.path.isdir(os.path.join(BUILD_ROOT, d)))
+        for _, d in old[:-3]:
+            shutil.rmtree(os.path.join(BUILD_ROOT, d), ignore_errors=True)
         subprocess.check_call(
             ["rsync", "-a", "--exclude", ".git", "--exclude", "build",
              "--exclude", "*.so", "--exclude", "docs", REPO + "/", dst + "/"])
